@@ -2,6 +2,7 @@ package props
 
 import (
 	"fmt"
+	"math"
 	"strings"
 
 	"gorgonia.org/tensor"
@@ -680,6 +681,78 @@ func c15SharedTranspose(r *core.Run) {
 								}
 							})
 							return fail
+						})
+					}
+				}
+			}
+		}
+	}
+}
+
+// c15NaN: the predicates on float tensors that hold NaN elements, and with a NaN bound: a NaN satisfies no ordered
+// comparison and equals nothing (it is "not equal" to everything), exactly as Go's operators say - also when a
+// predicate is written as the complement of its opposite.
+func c15NaN(r *core.Run) {
+	r.SetBound("nan_predicates", "9 predicates x {float32, float64} x {hard with prior mask, soft with prior mask, no prior mask} x elements [0 1 NaN 3 4 NaN 6] x bounds {(3,5), (NaN,5), (3,NaN)}")
+	nan := math.NaN()
+	for _, p := range maskPreds {
+		for _, d := range []ref.DT{ref.Float32, ref.Float64} {
+			if !r.Take() {
+				continue
+			}
+			for _, soft := range []bool{false, true} {
+				for _, prior := range []int{-1, 0x24, 0x5b} {
+					for bi, bnd := range [][2]float64{{3, 5}, {nan, 5}, {3, nan}} {
+						p, d, soft, prior, bi, bnd := p, d, soft, prior, bi, bnd
+						id := fmt.Sprintf("C15|nan|%s|%s|soft=%v|prior=%d|b%d", p.name, d.Name, soft, prior, bi)
+						if r.ReplayCase != "" && id != r.ReplayCase {
+							continue
+						}
+						r.Case(id, true, func() *core.Fail {
+							tensor.VerifResetPools()
+							fv := []float64{0, 1, nan, 3, 4, nan, 6}
+							n := len(fv)
+							vals := make([]interface{}, n)
+							back := d.MakeSlice(n)
+							for i, f := range fv {
+								vals[i] = ref.FromFloat(d, f)
+								ref.SliceSet(back, i, vals[i])
+							}
+							pm := make([]bool, n)
+							var t *tensor.Dense
+							if prior >= 0 {
+								for i := range pm {
+									pm[i] = prior&(1<<uint(i)) != 0
+								}
+								t = tensor.New(tensor.WithShape(n), tensor.WithBacking(back, append([]bool{}, pm...)))
+							} else {
+								t = tensor.New(tensor.WithShape(n), tensor.WithBacking(back))
+							}
+							if soft {
+								t.SoftenMask()
+							} else {
+								t.HardenMask()
+							}
+							x, y := ref.FromFloat(d, bnd[0]), ref.FromFloat(d, bnd[1])
+							o := callPred(t, p.name, x, y)
+							r.Op(1)
+							if o.Class != "ok" {
+								return core.F("unexpected-refusal", "x", "%s on a %s tensor with NaN elements refused: %s", p.name, d.Name, o)
+							}
+							got := t.Mask()
+							if len(got) != n {
+								return core.F("wrong-mask", "len", "mask length %d expected %d", len(got), n)
+							}
+							for i := range vals {
+								want := p.f(vals[i], x, y)
+								if !soft {
+									want = want || pm[i]
+								}
+								if got[i] != want {
+									return core.F("wrong-mask", fmt.Sprintf("b%d", i), "%s(%v,%v) soft=%v prior=%s on %v: mask %s, bit %d (element %v) should be %v", p.name, bnd[0], bnd[1], soft, bitsOf(pm), fv, bitsOf(got), i, fv[i], want)
+								}
+							}
+							return nil
 						})
 					}
 				}
